@@ -167,7 +167,7 @@ def one_program(ctx, fam, i):
 
 
 def run(ctx):
-    n = 30 if ctx.tier == "quick" else 160
+    n = 30 if ctx.tier == "quick" else 700
     core.WARM_P = 0.0
     if ctx.replay:
         c = ctx.replay["case"]
